@@ -59,6 +59,7 @@ type interpreter struct {
 	tt                 *TermTable
 	run                *Run
 	steps              int64
+	budget             int64 // absolute step limit set by sym.Budget (0 = engine default)
 	depth              int
 	maxDepthSeen       int
 	sched              *scheduler
@@ -547,8 +548,8 @@ func runFrame(fr *frame) {
 		n := int64(len(nonPhis))
 		i.steps += n
 		i.run.instrs[fr.fn] += n
-		if i.steps > i.run.cfg.MaxSteps {
-			panic(budgetExceeded{fmt.Sprintf("instruction budget %d exceeded in %s", i.run.cfg.MaxSteps, fr.fn)})
+		if i.steps > i.run.cfg.MaxSteps || (i.budget > 0 && i.steps > i.budget) {
+			panic(budgetExceeded{fmt.Sprintf("instruction budget exceeded after %d instructions in %s", i.steps, fr.fn)})
 		}
 		for _, instr := range nonPhis {
 			if visitInstr(fr, instr) == kReturn {
@@ -631,12 +632,20 @@ type symref struct {
 
 func (i *interpreter) boundsCheck(idx *SV, n int) {
 	tt := i.tt
+	w := idx.T.S.W
 	var oob *Term
-	nn := tt.Const(idx.T.S, uint64(n))
 	if kindSigned(idx.K) {
-		oob = tt.Or(tt.Cmp(OSlt, idx.T, tt.Const(idx.T.S, 0)), tt.Cmp(OSle, nn, idx.T))
+		neg := tt.Cmp(OSlt, idx.T, tt.Const(idx.T.S, 0))
+		if w < 64 && uint64(n) > mask(w-1) {
+			oob = neg // every non-negative value is below n
+		} else {
+			oob = tt.Or(neg, tt.Cmp(OSle, tt.Const(idx.T.S, uint64(n)), idx.T))
+		}
 	} else {
-		oob = tt.Cmp(OUle, nn, idx.T)
+		if w < 64 && uint64(n) > mask(w) {
+			return
+		}
+		oob = tt.Cmp(OUle, tt.Const(idx.T.S, uint64(n)), idx.T)
 	}
 	if i.decide(oob, "index out of range") {
 		panic(targetRuntimeError(fmt.Sprintf("index out of range [symbolic] with length %d", n)))
